@@ -170,7 +170,8 @@ def finish(prop: str, tier: str, seed: int, level: str, rule: str, merged: dict,
     """Write evidence, print verdict lines, return exit code (0 held / 1 violated / 2 inconclusive)."""
     os.makedirs(EVIDENCE_DIR, exist_ok=True)
     known = load_known(prop)
-    for key, n in sorted(merged["known_hits"].items()):
+    for key in sorted(known):
+        n = merged["known_hits"].get(key, 0)
         print(f"KNOWN-FINDING: property={prop} {known[key]['what']} (seen {n}x this run; key={key})")
     code = 0
     replay_paths = []
